@@ -14,7 +14,7 @@ def build(repo, findings):
     sh = u.source('brush-core/src/shell.rs')
     tp = u.source('brush-core/src/traps.rs')
     tp.require_text(r'pub struct TrapHandler \{\s*(///[^\n]*\n\s*)*pub command: String,\s*(///[^\n]*\n\s*)*pub source_info: crate::SourceInfo,', 'projection TrapHandler')
-    for f in ('call_stack: ', 'traps: ', 'last_exit_status: u8', 'options: RuntimeOptions'):
+    for f in ('call_stack: ', 'traps: ', 'last_exit_status: u8', 'last_pipeline_statuses: Vec<u8>', 'options: RuntimeOptions'):
         sh.require_text(r'^\s+(pub(\(crate\))? )?' + f, 'projected field Shell.' + f)
     u.raw(HEADER)
     u.prelude('traps/spec.rs')
@@ -78,5 +78,6 @@ def build(repo, findings):
     u.assume('external_body', 'run_string carries an ASSUMED frame contract (call stack left as found, on Ok and on Err); enter/leave_trap_handler and start/end_command_string_mode carry the CallStack push/pop contracts proved in U19; CallStack, TrapHandlerConfig, SourceInfo, Rest are opaque')
     u.assume('uninterp', 'CallStack::active/suppressed/depth/top_is_command_string, TrapHandlerConfig::handler, Rest::runs (ghost log)')
     u.assume('stub', 'the interactive front-end, run_script, brush-shell entry.rs (tokio runtime, signals), "after all other output", exec, and `exit` inside nested constructs reaching the front-end are NOT verified')
+    u.assume('assume_specification', 'Option::copied / Option::<u8>::unwrap_or_default (std documented behaviour; available so that a status restore written with them is verified rather than refused)')
     u.expected_min_fns = 8
     return u
